@@ -465,7 +465,7 @@ func configPairs(o *chainkit.Outcome, what string) []string {
 func TestC20Config(t *testing.T) {
 	theT = t
 	col := ev.New("C20", "config",
-		"rapid: setConfig/config/listConfig of Netmap (FS chain) and NeoFS (main chain, notary mode) over keys that are prefixes of one another (\"\", a, ab, abc, ContainerFee, ContainerFeeX, b) and values incl. empty, with and without the Alphabet; config(k) for every key of the pool and listConfig compared with a map model after every step; non-trivial = two keys set where one is a prefix of the other",
+		"rapid: setConfig/config/listConfig of Netmap (FS chain) and NeoFS (main chain: with Notary, and without Notary where a setting is put by the votes of 3 stored keys and several settings are in the vote at once - opened, completed, finished later in any order) over keys that are prefixes of one another (\"\", a, ab, abc, ContainerFee, ContainerFeeX, b) and values incl. empty, with and without the Alphabet; config(k) for every key of the pool and listConfig compared with a map model after every step; non-trivial = two keys set where one is a prefix of the other",
 	)
 	keysPool := [][]byte{{}, []byte("a"), []byte("ab"), []byte("abc"), []byte("ContainerFee"), []byte("ContainerFeeX"), []byte("b")}
 	runRapid(t, col, func(rt *rapid.T, h *ev.History) {
@@ -482,22 +482,88 @@ func TestC20Config(t *testing.T) {
 		} else {
 			h.Op("Netmap contract")
 		}
+		// main chain without Notary: a setting is put by the votes of the stored keys (3 keys, threshold 3),
+		// and several settings may be in the vote at once
+		voted := main && rapid.Bool().Draw(rt, "withoutNotary")
+		var members []neotest.Signer
+		type pend struct {
+			id, k, v []byte
+			votes    int
+			last     uint32
+		}
+		var pending []*pend
+		if voted {
+			var pubs []any
+			for i := 0; i < 3; i++ {
+				key := chainkit.DetKey(fmt.Sprintf("c20-main-alphabet-%d", i))
+				pubs = append(pubs, key.PublicKey().Bytes())
+				members = append(members, neotest.NewSingleSigner(walletOf(key)))
+			}
+			target = w.c.Deploy(chainkit.ContractNamed("neofs", "NeoFS voted"), []any{true, util.Uint160{1, 2, 3}, pubs, []any{[]byte("abc"), []byte("init")}})
+			h.Op("NeoFS contract without Notary, 3 stored keys")
+			h.Mark("config-put-by-votes")
+		}
 		steps := rapid.IntRange(1, 14).Draw(rt, "steps")
 		for s := 0; s < steps; s++ {
 			k := rapid.SampledFrom(keysPool).Draw(rt, "key")
 			v := rapid.SampledFrom([][]byte{[]byte("1"), []byte("22"), {}, {0}, []byte("a")}).Draw(rt, "value")
-			withAlpha := rapid.IntRange(0, 7).Draw(rt, "noAlpha") != 0
-			signers := w.alpha
-			if !withAlpha {
-				signers = deficientSigners(rt, w.c, w.nodes[0])
-			}
-			o := w.c.Invoke(signers, target, "setConfig", []byte(fmt.Sprintf("id-%d", s)), k, v)
-			h.Op("setConfig(%q,%q) alphabet=%v -> %s", k, v, withAlpha, o)
-			if withAlpha != o.Halt {
-				fail("C20: setConfig alphabet=%v: %s", withAlpha, o)
-			}
-			if o.Halt {
-				model[string(k)] = v
+			if voted {
+				cast := func(p *pend) {
+					o := w.c.Invoke([]neotest.Signer{members[p.votes]}, target, "setConfig", p.id, p.k, p.v)
+					p.votes++
+					p.last = w.c.Height()
+					h.Op("vote %d of stored key %d for setConfig(%q,%q) [%s] -> %s", p.votes, p.votes-1, p.k, p.v, p.id, o)
+					if !o.Halt {
+						fail("C20: vote of a stored key failed: %s", o)
+					}
+					if p.votes == 3 {
+						model[string(p.k)] = p.v
+					}
+				}
+				// ballots whose last vote is too old are abandoned (they expire; C17 judges that)
+				live := pending[:0]
+				for _, p := range pending {
+					if w.c.Height()-p.last <= 12 {
+						live = append(live, p)
+					}
+				}
+				pending = live
+				switch op := rapid.SampledFrom([]string{"open", "complete-new", "complete-new", "finish-pending", "finish-pending"}).Draw(rt, "voteOp"); {
+				case op == "finish-pending" && len(pending) > 0:
+					i := rapid.IntRange(0, len(pending)-1).Draw(rt, "whichPending")
+					p := pending[i]
+					pending = append(pending[:i], pending[i+1:]...)
+					for p.votes < 3 {
+						cast(p)
+					}
+					h.Mark("pending-setting-completed-after-another")
+				case op == "open":
+					p := &pend{id: []byte(fmt.Sprintf("id-%d", s)), k: k, v: v}
+					cast(p)
+					if rapid.Bool().Draw(rt, "secondVote") {
+						cast(p)
+					}
+					pending = append(pending, p)
+				default:
+					p := &pend{id: []byte(fmt.Sprintf("id-%d", s)), k: k, v: v}
+					for p.votes < 3 {
+						cast(p)
+					}
+				}
+			} else {
+				withAlpha := rapid.IntRange(0, 7).Draw(rt, "noAlpha") != 0
+				signers := w.alpha
+				if !withAlpha {
+					signers = deficientSigners(rt, w.c, w.nodes[0])
+				}
+				o := w.c.Invoke(signers, target, "setConfig", []byte(fmt.Sprintf("id-%d", s)), k, v)
+				h.Op("setConfig(%q,%q) alphabet=%v -> %s", k, v, withAlpha, o)
+				if withAlpha != o.Halt {
+					fail("C20: setConfig alphabet=%v: %s", withAlpha, o)
+				}
+				if o.Halt {
+					model[string(k)] = v
+				}
 			}
 			var want []string
 			for mk, mv := range model {
